@@ -14,7 +14,7 @@ import (
 
 func init() {
 	register("C36", propMeta{
-		Explanation:  "A static lockset approximation, not a race detector: (R1) every package-level variable of packages sop, common, cache and fs that is written after initialisation by library code has one mutex that is held at all of its accesses (exclusively at writes, at least shared at reads) - locks held are computed per CFG node as a must-set, plus the locks every caller holds at every call site of an unexported function (three levels); variables that are only assigned by exported configuration setters / initialisation and variables of sync / atomic types are listed as such; variables touched only by the maintenance routines behind Transaction.onIdle are reported separately as latent, because that path is unreachable from any exported API today (C09.R1, known finding F5) and no execution of the real library can exhibit those races; (R2) goroutines spawned in the same scope (the task-runner closures of phase2Commit and the erasure-coding blob store) must not write a shared struct field that a sibling reads without a common lock: the fields reachable from each closure through static callees are collected, and a field written by one sibling's callees and read or written by another's without a common must-held lock is a violation (element-wise writes to a shared slice indexed by the per-goroutine loop variable are the accepted idiom); (R3) wrapper exhaustiveness: the synchronised cache wrapper overrides every method of the cache interface under its mutex. (R4) mutex-sibling maps: in a struct carrying its own mutex every access to a sibling map field outside constructors holds that mutex.",
+		Explanation:  "A static lockset approximation, not a race detector: (R1) every package-level variable of packages sop, common, cache and fs that is written after initialisation by library code has one mutex that is held at all of its accesses (exclusively at writes, at least shared at reads) - locks held are computed per CFG node as a must-set, plus the locks every caller holds at every call site of an unexported function (three levels); variables that are only assigned by exported configuration setters / initialisation and variables of sync / atomic types are listed as such; variables touched only by the maintenance routines behind Transaction.onIdle are reported separately as latent, because that path is unreachable from any exported API today (C09.R1, known finding F5) and no execution of the real library can exhibit those races; (R2) goroutines spawned in the same scope (the task-runner closures of phase2Commit and the erasure-coding blob store) must not write a shared struct field that a sibling reads without a common lock: the fields reachable from each closure through static callees are collected, and a field written by one sibling's callees and read or written by another's without a common must-held lock is a violation (element-wise writes to a shared slice indexed by the per-goroutine loop variable are the accepted idiom); (R3) wrapper exhaustiveness: the synchronised cache wrapper overrides every method of the cache interface under its mutex. (R4) mutex-sibling maps: in a struct carrying its own mutex every access to a sibling map field outside constructors holds that mutex. (R5) the fields of cache.l1CacheEntry (the node data and MRU links shared by all transactions of the process) are read and written only while L1Cache.locker is held - in L1Cache methods at nodes where the lock is held, in MRU helpers only when every caller holds it.",
 		DoesNotCover: "No may-happen-in-parallel analysis beyond R2's sibling closures; struct fields shared between user goroutines (one transaction used from several goroutines is outside the library's contract); the Redis / Cassandra adapters.",
 	}, runC36)
 }
